@@ -33,7 +33,7 @@ func genRMWRules(d *draws, g *btGen, r *Run) []*btpb.ReadModifyWriteRule {
 	for i := 0; i < 4; i++ {
 		sub := d.sub(6)
 		fam := g.fam(sub)
-		q := btQuals[sub.w(6, 2, 1, 1, 1)]
+		q := btQuals[sub.w(6, 2, 1, 1, 1, 2)]
 		rule := &btpb.ReadModifyWriteRule{FamilyName: fam, ColumnQualifier: []byte(q)}
 		switch sub.w(5, 5, 1) {
 		case 0:
@@ -62,13 +62,13 @@ func runC13(r *Run) {
 	engine := pickEngine(r, cfg)
 	nOps := 1 + cfg.Intn(30)
 	clk := NewClock(1_700_000_000_000_777+int64(cfg.Intn(5000)), 1_700_000_000_000_000_000)
-	gen := &btGen{fams: []string{"f1", "f2"}, unknown: "nofam"}
+	gen := &btGen{fams: []string{"f1", "f12"}, unknown: "nofam"}
 	const tbl = "projects/p/instances/i/tables/t"
 	rows := []string{"r", "r\x00", "s"}
 	lastClock := clk.ServerUs
 	spec := seqSpec{
 		Engine: engine, NOps: nOps, FullEvery: 5, AllowBack: true, Restarts: cfg.Intn(3) == 2,
-		Tables: []btOp{{Kind: "CreateTable", Parent: "projects/p/instances/i", TableID: "t", Fams: map[string]*btapbGc{"f1": nil, "f2": nil}}},
+		Tables: []btOp{{Kind: "CreateTable", Parent: "projects/p/instances/i", TableID: "t", Fams: map[string]*btapbGc{"f1": nil, "f12": nil}}},
 		Gen: func(d *draws, m *btModel, i int) btOp {
 			if clk.ServerUs < lastClock {
 				r.Probe("c13.clock_back")
@@ -87,8 +87,8 @@ func runC13(r *Run) {
 				if ts > nowMs {
 					r.Probe("c13.future_cell")
 				}
-				fam := []string{"f1", "f2"}[sub.w(3, 1)]
-				q := btQuals[sub.w(6, 2, 1, 1, 1)]
+				fam := []string{"f1", "f12"}[sub.w(3, 1)]
+				q := btQuals[sub.w(6, 2, 1, 1, 1, 2)]
 				return btOp{Kind: "MutateRow", Table: tbl, Key: key, Muts: mutList{{Mutation: &btpb.Mutation_SetCell_{SetCell: &btpb.Mutation_SetCell{FamilyName: fam, ColumnQualifier: []byte(q), TimestampMicros: ts, Value: val}}}}}
 			default:
 				return btOp{Kind: "MutateRow", Table: tbl, Key: key, Muts: gen.mutations(d, 2, false)}
